@@ -104,13 +104,26 @@ func (o *Operation) Filename() (filename string) {
 		}
 	}
 
-	return fmt.Sprintf(
+	return sanitizeFilename(fmt.Sprintf(
 		"%s_step_%d_%s_%s",
 		filename,
 		getStepNumber(o.Type),
 		getShortOperationDescription(o.Type),
 		shortID(o.ID),
-	)
+	))
+}
+
+// sanitizeFilename keeps a file name that is built from operation fields (round, batch and operation
+// identifiers, which arrive from outside) free of path separators and other special characters, so the
+// file always lands in the folder it is meant for.
+func sanitizeFilename(name string) string {
+	return strings.Map(func(r rune) rune {
+		switch {
+		case r >= 'a' && r <= 'z', r >= 'A' && r <= 'Z', r >= '0' && r <= '9', r == '-', r == '_', r == '.':
+			return r
+		}
+		return '_'
+	}, name)
 }
 
 func (o *Operation) IsSigningState() bool {
